@@ -26,7 +26,7 @@ RECURSIVE HeadersFrom(_, _, _)
 HeadersFrom(s, i, h) ==
     LET ln == NextLine(s, i) IN
     CASE ln.k = "incomplete" -> [k |-> "incomplete", h |-> h, next |-> 0, err |-> NoErr]
-      [] ln.k = "toolong" -> [k |-> "err", h |-> h, next |-> 0, err |-> E_HSize(Slice(s, ln.a, ln.b))]
+      [] ln.k = "toolong" -> [k |-> "err", h |-> h, next |-> 0, err |-> E_HSize(Lossy(Slice(s, ln.a, ln.b)))]
       [] ln.k = "line" ->
             IF ln.b < ln.a THEN [k |-> "end", h |-> h, next |-> ln.next, err |-> NoErr]
             ELSE LET r == ParseHeaderLine(h, Slice(s, ln.a, ln.b)) IN
